@@ -18,6 +18,8 @@ CONSTANTS
   NsChecked = TRUE
   IdMapped = TRUE
   AuthChecked = TRUE
+  RangeChecked = TRUE
+  ReservedKeptOnMerge = TRUE
 INIT InitAll
 NEXT Next
 VIEW View
